@@ -360,6 +360,13 @@ type TTagConv struct {
 	ID int64  `parquet:"id"`
 	U  string `parquet:"u,uuid"`
 	OU string `parquet:"ou,uuid,optional"`
+	// a time.Time stored as days, durations stored as a time of day in the column's unit
+	Day  time.Time     `parquet:"day,date"`
+	ODay time.Time     `parquet:"oday,date,optional"`
+	PDay *time.Time    `parquet:"pday,date"`
+	DMs  time.Duration `parquet:"dms,time(millisecond)"`
+	DUs  time.Duration `parquet:"dus,time(microsecond)"`
+	ODUs time.Duration `parquet:"odus,time(microsecond),optional"`
 }
 
 func init() { reg[TTagConv]("tagconv") }
